@@ -138,6 +138,7 @@ def c03():
     return jobs
 
 
+PANIC_BORROW = (("placeholder message", "panic_already"),)
 EXPECT_OVERFLOW = (("placeholder message", "std::option::expect_failed"),)
 STUBS = ("Kani -Z stubbing: SlotVersion::next / ArchetypeVersion::next replaced by a function identical below u32::MAX that inspects the world at u32::MAX and ends the path",)
 
@@ -203,6 +204,7 @@ def c07():
     def j(h, t, c, w, **kw):
         return J(h, t, c, what=w, bounds=b, assumes=a, **kw)
     return [
+        j("c07_plain_step_2_1", Q, 250, "closures returning the two-valued EcsStep or (): nothing destroyed, EcsStep::Break stops without destroying"),
         j("c07_shared_2_1", Q, 300, "both archetypes matched, arbitrary decision table, capacities 2/1"),
         j("c07_shared_1_2", Q, 300, "capacities 1/2"),
         j("c07_shared_2_2", T, 600, "capacities 2/2"),
@@ -232,6 +234,7 @@ def c08():
         j("c08_monotone_destroy_foo_4", T, 150, "same, N=4"),
         j("c08_monotone_destroy_tri_2", T, 100, "same, 3 columns"),
         j("c08_cross_archetype_2_2", Q, 100, "handles of two archetypes differ"),
+        J("c13_clone_create_on_clone_foo_3", Q, 250, what="clone keeps every generation (free positions included) so a clone never re-issues a handle the original issued before the snapshot", bounds=b, assumes=a + (NOOVF, ISSUED)),
         j("c08_overflow_slot_typed_foo_3", Q, 60, "slot generation at u32::MAX: clean panic instead of reissue", expect_fail=EXPECT_OVERFLOW),
         j("c08_overflow_slot_any_foo_2", T, 60, "same via World::destroy(EntityAny)", expect_fail=EXPECT_OVERFLOW),
         j("c08_overflow_slot_direct_foo_2", T, 60, "same via destroy(EntityDirect)", expect_fail=EXPECT_OVERFLOW),
@@ -255,6 +258,8 @@ def c09():
         j("c09_obtain_wdirectany_remove_foo_2", T, 250, "World::to_direct(EntityDirectAny) then removal", role="to_direct_on_direct_key"),
         j("c09_obtain_typed_recreate_tri_2", T, 200, "re-creation at same dense index, 3 columns"),
         j("c09_obtain_any_create_tri_3", T, 200, "creation after to_direct, 3 columns"),
+        j("c09_obtain_typed_failed_destroy_foo_3", Q, 200, "a FAILED destroy (stale key of any kind) is no structural change: direct handles stay accepted"),
+        J("c03_foreign_direct_foo_3", Q, 100, what="a direct handle carrying another archetype's id is refused by every archetype-level path", bounds=b, assumes=a, allowed=(CLEAN_DIRECT,)),
         j("c09_step_destroy_foo_3", Q, 250, "arbitrary direct handle probed after a destroy step, all paths", role="to_direct_on_direct_key"),
         j("c09_step_create_foo_3", T, 250, "arbitrary direct handle probed after a create step", role="to_direct_on_direct_key"),
         j("c09_step_destroy_foo_4", T, 300, "destroy step N=4", role="to_direct_on_direct_key"),
@@ -289,6 +294,11 @@ def c10():
         j("c10_overflow_destroy_tokens_any_3", T, 120, "same on Drop-counting token components (ownership after the caught panic)", **ov),
         j("c10_callbacks_clone_drop_3", Q, 200, "source world intact at every Clone::clone call; no token dropped twice at any Drop::drop call"),
         j("c10_callbacks_clone_drop_2", T, 100, "same, N=2"),
+        j("c10_conversion_point_arch_2", Q, 150, "the user's Into<Components> conversion (Archetype::create) runs on an untouched storage: inspected from inside the conversion"),
+        j("c10_conversion_point_world_2", T, 150, "same through World::create"),
+        j("c10_leaked_guard_destroy_any_3", Q, 150, "destroy after a guard was leaked with mem::forget: a RefCell panic inside destroy, if reachable, is replayed natively (catch_unwind + Inv/wholeness oracle)", allowed=PANIC_BORROW, native_oracle=True),
+        j("c10_leaked_guard_destroy_typed_2", T, 100, "same, typed key, first column", allowed=PANIC_BORROW, native_oracle=True),
+        j("c10_leaked_guard_iter_destroy_2", T, 150, "same through ecs_iter_destroy!, shared guard leaked", allowed=PANIC_BORROW, native_oracle=True),
         j("c10_capacity_overflow_create", Q, 20, "create at the 2^24 limit panics before touching anything", expect_fail=(("capacity overflow", "push"),)),
         j("c10_capacity_overflow_with_capacity", Q, 20, "with_capacity(> 2^24) panics", expect_fail=(("capacity may not exceed", "with_capacity"),)),
     ]
@@ -354,9 +364,6 @@ def c05_e1():
     return jobs
 
 
-PANIC_BORROW = (("placeholder message", "panic_already"),)
-
-
 def c11():
     a = ("both archetypes hold 2 entities in an arbitrary Inv arrangement", "release of guards BY UNWINDING is std's Ref/RefMut Drop guarantee (Kani cannot unwind)")
     b = "2 archetypes x 2 columns (one component type shared), 2 entities each; access kinds: borrow_slice(_mut), Borrow::component(_mut), ecs_find_borrow!, ecs_iter_borrow!, clone; nesting depth 2"
@@ -379,6 +386,10 @@ def c11():
                "c11_panic_slice_m_clone", "c11_panic_iter_m_clone", "c11_panic_find_s_comp_m", "c11_panic_comp_m_iter_m"}
     jobs.append(J("c11b_panic_clone_outer_mut_same_column", Q, 40, what="clone as the OUTER access: a mutable borrow of the same column made from inside a component's Clone impl panics", bounds=b, assumes=a, expect_fail=PANIC_BORROW))
     jobs.append(J("c11b_panic_clone_outer_mut_other_column", T, 40, what="clone as the OUTER access: mutable borrow of another column of the archetype being cloned panics", bounds=b, assumes=a, expect_fail=PANIC_BORROW))
+    for h, t in (("c11b_empty_outer_mut_inner_shared", Q), ("c11b_empty_outer_shared_inner_mut", T), ("c11b_empty_outer_mut_inner_typed", T)):
+        jobs.append(Job(harness="c11b::empty::" + h, tier=t, cost=60, what="EMPTY archetype cell: an outstanding guard on a column of an empty (possibly emptied) archetype does not make ecs_iter_borrow! over it panic", bounds=b, assumes=a))
+    for h, t in (("c11b_break_before_guarded_mut", Q), ("c11b_break_before_guarded_shared", T)):
+        jobs.append(Job(harness="c11b::empty::" + h, tier=t, cost=60, what="Break in an earlier archetype: a guard on a column of a LATER matched archetype conflicts with nothing", bounds=b, assumes=a))
     jobs.append(J("c11b_ok_clone_outer_shared_reentry", Q, 40, what="clone as the OUTER access: shared re-entry and a mutable borrow in another archetype succeed", bounds=b, assumes=a))
     for h in cells:
         jobs.append(J(h, Q if h in quick_p else T, 30, what="conflicting nested access panics (already borrowed); nothing after it is reachable", bounds=b, assumes=a,
@@ -391,6 +402,7 @@ def c14_e1():
     return [
         J("c14_entity_conversions", Q, 60, what="from_raw/raw, TryFrom/from_any/into_any, reference casts, generated SelectEntity/SelectArchetype/__SelectTotal tables, Eq/Hash", bounds=b),
         J("c14_direct_conversions", Q, 60, what="same for direct handles and SelectEntityDirect", bounds=b),
+        J("c14_tables_descending_ids", Q, 100, what="generated tables of a world whose explicit ids descend in declaration order: entity AND direct handles select their own archetype's variant; world-level dynamic-key calls routed accordingly", bounds=b),
         J("c14_created_ids", Q, 100, what="archetype_id() of created handles == ARCHETYPE_ID; From<Entity<A>> for Select*", bounds=b, assumes=(INV_ASSUME,)),
     ]
 
@@ -420,6 +432,8 @@ def c17():
         j("c17_iter_destroy_2", Q, 200, "ecs_iter_destroy! logs each destruction once, in order"),
         j("c17_clear_arch_clone_2", Q, 250, "Archetype::clear_events empties both logs, nothing else changes; clone carries the pending events"),
         j("c17_clear_world_clone_1", T, 250, "World::clear_events"),
+        j("c17_clear_destroy_only_arch_2", Q, 200, "a window with destructions but no creations is cleared too (archetype level)"),
+        j("c17_clear_destroy_only_world_2", T, 200, "same at world level"),
         j("c17_world_iter_created", Q, 150, "World::iter_created = concatenation over archetypes, exact size_hint at every position"),
         j("c17_world_iter_destroyed", T, 200, "World::iter_destroyed"),
     ]
@@ -438,6 +452,7 @@ def c19():
         ("c01::c01_destroy_wdirectany_foo_2", 200, (), ()),
         ("c03::c03_forged_arch_foo_3", 150, (CLEAN_ENTITY,), ()),
         ("c03::c03_direct_arch_foo_3", 100, (CLEAN_DIRECT,), ()),
+        ("c03::c03_forged_destroy_any_foo_3", 150, (CLEAN_ENTITY,), ()),
         ("c13::c13_clone_destroy_on_orig_foo_3", 250, (), ()),
         ("c04::c04_destroy_any_3", 150, (), ()),
         ("c04::c04_clone_3", 200, (), ()),
@@ -447,7 +462,7 @@ def c19():
         ("c19::c19_wide17_destroy_2", 300, (), ()),
     ]
     quick_sets = {((), True), ((), False), (("events", "wrapping_version", "c32"), True), (("events", "wrapping_version", "c32"), False)}
-    quick_core = {"c03::c03_direct_arch_foo_3", "c01::c01_create_foo_3", "c01::c01_destroy_typed_foo_3", "c03::c03_forged_arch_foo_3", "c04::c04_destroy_any_3",
+    quick_core = {"c03::c03_forged_destroy_any_foo_3", "c03::c03_direct_arch_foo_3", "c01::c01_create_foo_3", "c01::c01_destroy_typed_foo_3", "c03::c03_forged_arch_foo_3", "c04::c04_destroy_any_3",
                   "c08::c08_overflow_slot_typed_foo_3", "c19::c19_wide17_destroy_2", "c13::c13_clone_destroy_on_orig_foo_3"}
     jobs = []
     for fs in FEATURE_SETS:
